@@ -44,6 +44,10 @@ func newErrRecursiveType(typ reflect.Type) error {
 	return fmt.Errorf("ekit: copier 不支持递归定义的类型 %v", typ)
 }
 
+func newErrCyclicValue(field string) error {
+	return fmt.Errorf("ekit: 字段 %s 的值存在环形引用", field)
+}
+
 func newErrMultiPointer(field string) error {
 	return fmt.Errorf("ekit: 字段 %s 是多级指针", field)
 }
